@@ -426,10 +426,29 @@ GEMMX_STREAMERS = {("matmul", False): (0, 1, 4), ("matmul", True): (0, 1, 2), ("
                    ("conv", False): (0, 1, 4), ("rescale", True): (3, 2)}
 
 
+def _in_main(o):
+    while o is not None and o.name != "func.func":
+        o = o.parent_op()
+    return o is not None and o.sym_name.data == "main"
+
+
 def prop(r):
     text = build(r)
     acc_name = "snax_alu" if r["kind"] == "alu" else "snax_gemmx"
     ctx = _geom_ctx(r, acc_name)
+    sibling = False
+    if r.get("sibling"):
+        # a second operation of the same kind with another shape, in a function placed in front of @main in the same module
+        try:
+            t2 = build(dict(r, **r["sibling"]))
+            body2 = t2.strip()[len("builtin.module {"):].rstrip()[:-1].replace("@main", "@pre")
+            body1 = text.strip()[len("builtin.module {"):]
+            merged = "builtin.module {" + body2.rstrip() + "\n" + body1.lstrip("\n")
+            m2 = parse(merged, ctx)
+            m2.verify()
+            text, sibling = merged, True
+        except Exception:
+            pass
     try:
         mod = parse(text, ctx)
         mod.verify()
@@ -448,7 +467,7 @@ def prop(r):
         raise Reject(f"scheduler found no schedule [{r['kind']}]")
     except (NotImplementedError, RuntimeError, AssertionError, IndexError, ValueError) as e:
         raise Reject(f"scheduling/layout stage: {type(e).__name__} {str(e)[:50]}")
-    scheds = [o for o in mod.walk() if o.name == "dart.schedule"]
+    scheds = [o for o in mod.walk() if o.name == "dart.schedule" and _in_main(o)]
     if len(scheds) != 1:
         raise Reject("no dart.schedule produced (operation left unscheduled)")
     sched = scheds[0]
@@ -510,8 +529,9 @@ def prop(r):
     orig = acc_cls.set_stride_patterns
 
     def spy(self, op, pats):
-        captured["pats"] = list(pats)
-        captured["operands"] = list(op.operands)
+        if _in_main(op):
+            captured["pats"] = list(pats)
+            captured["operands"] = list(op.operands)
         return orig(self, op, pats)
 
     acc_cls.set_stride_patterns = spy
@@ -537,7 +557,7 @@ def prop(r):
         acc_cls.set_stride_patterns = orig
     if any("Non-contiguous access" in str(w.message) for w in wlist):
         raise Outside("conversion warns: non-contiguous access (documented as unsupported)")
-    regions = [o for o in mod.walk() if o.name == "snax_stream.streaming_region"]
+    regions = [o for o in mod.walk() if o.name == "snax_stream.streaming_region" and _in_main(o)]
     if len(regions) != 1 or "pats" not in captured:
         raise Violation("conversion:no-streaming-region", dict(after=to_text(mod)[:2000]))
     region = regions[0]
@@ -626,6 +646,8 @@ def prop(r):
         cls.append("one-buffer-feeds-two-operands")
     if r.get("i8_out") and r["kind"] in ("matmul", "gemm"):
         cls.append("gemmx-i8-output:" + r["kind"])
+    if sibling:
+        cls.append("sibling-op-in-module")
     if r.get("geom") and [tuple(s_.spatial_dims) for s_ in hw_all] != [tuple(s_.spatial_dims) for s_ in shared_ctx().get_acc(acc_name).streamer_config.data.streamers]:
         cls.append("non-default-streamer-geometry")
     cls += sorted({"ref:" + d for d, _ in descs})
@@ -652,6 +674,29 @@ def _given(draw, rank, tsl_in_4=1, inner=4):
 
 @st.composite
 def recipe(draw, tier):
+    r = draw(_recipe(tier))
+    if draw(st.integers(0, 3)) == 0 and "sibling" not in r:
+        f = st.sampled_from([1, 2, 2, 3])
+        if r["kind"] == "alu":
+            if len(r["shape"]) >= 2 and r["shape"] != r["shape"][::-1] and draw(st.booleans()):
+                r["sibling"] = dict(shape=r["shape"][::-1])
+            else:
+                sib = dict(shape=[d * draw(f) for d in r["shape"]])
+                if sib["shape"] == r["shape"]:
+                    sib["shape"][-1] *= 2
+                r["sibling"] = sib
+        elif r["kind"] in ("matmul", "gemm"):
+            sib = dict(M=r["M"] * draw(f), N=r["N"] * draw(f), K=r["K"] * draw(f))
+            if (sib["M"], sib["N"], sib["K"]) == (r["M"], r["N"], r["K"]):
+                sib["M"] *= 2
+            r["sibling"] = sib
+        elif r["kind"] == "rescale":
+            r["sibling"] = dict(M=r["M"] * 2, K=r["K"])
+    return r
+
+
+@st.composite
+def _recipe(draw, tier):
     big = tier == "thorough"
     kind = draw(st.sampled_from(["alu", "alu", "alu", "alu", "matmul", "matmul", "matmul", "matmul", "gemm", "gemm", "conv", "conv", "rescale"]))
     layout = draw(st.sampled_from(["none", "pass_tiled", "pass_tiled", "pass_untiled", "given", "given"]))
